@@ -274,6 +274,14 @@ Section WF.
     end.
 End WF.
 
+(* items that start an instruction of the code part *)
+Definition is_head (tbl : list (string * Z)) (it : item) : bool :=
+  match it with
+  | ILabel _ | IPushLabel _ | IPushOfstL _ _ | IPushOfstC _ _ => true
+  | IOp s => negb (String.eqb s "DEBUG") && match slookup tbl s with Some _ => true | None => false end
+  | _ => false
+  end.
+
 Definition wf_asm (tbl : list (string * Z)) (asm : list item) : bool :=
   match collect_consts asm [] with
   | Ok cm => wf_code tbl cm O asm
